@@ -86,6 +86,7 @@ class RecClock(Clock):
     def callLater(self, delay, func, *a, **kw):
         dc = Clock.callLater(self, delay, func, *a, **kw)
         dc.verif_id = self.next_id
+        dc.verif_func = func  # Twisted deletes `dc.func` when the call fires or is cancelled
         self.next_id += 1
         self.by_id[dc.verif_id] = dc
         orig = dc.canceller
@@ -115,7 +116,11 @@ class RecClock(Clock):
                     raise KeyError("timer %d not due" % tid)
                 del self.calls[i]
                 c.called = 1
-                c.func(*c.args, **c.kw)
+                try:
+                    c.func(*c.args, **c.kw)
+                except Exception as e:
+                    # the reactor would log it and go on: an observation (the model's `raise <class>`), never a harness crash
+                    self.world.log.append("raise " + type(e).__name__)
                 return
         raise KeyError("timer %d not active" % tid)
 
@@ -302,6 +307,8 @@ class GroupWorld(object):
                 d = g.start()
             except C.RestartError:
                 self.log.append("raise RestartError")
+            except Exception as e:  # anything else start() raises is an observation too
+                self.log.append("raise " + type(e).__name__)
             else:
                 self.start_d = d
                 d.addCallbacks(lambda r: self.log.append("startFired ok"), lambda f: self.log.append("startFired err:" + kind_of(f.value)))
@@ -378,7 +385,7 @@ class GroupWorld(object):
         elif op == "fire":
             self.clock.fire(int(w[1]))
             # the looper's next delay is Twisted's float arithmetic: an external answer for the model
-            nxt = [o for o in self.log if isinstance(o, list) and isinstance(o[1].func, LoopingCall)]
+            nxt = [o for o in self.log if isinstance(o, list) and isinstance(o[1].verif_func, LoopingCall)]
             self.last_event = "fire %s%s" % (w[1], " " + show_frac(nxt[-1][2]) if nxt else "")
         elif op == "advance":
             dt = Fraction(w[1])
@@ -389,11 +396,16 @@ class GroupWorld(object):
         return self.render()
 
     def timer_kind(self, dc):
-        if isinstance(dc.func, LoopingCall):
+        """hb / rejoin / retry: the three kinds of delayed call the code (and the model) has.  Anything else the
+        implementation schedules on the member's reactor is `other`: an observation the model has no kind for
+        (reported as a disagreement), which the generator fires like any timer so that the monitors judge what
+        the implementation does when it fires."""
+        f = dc.verif_func
+        if isinstance(f, LoopingCall):
             return "hb"
-        if self.group._rejoin_wait_dc is dc:
-            return "rejoin"
-        return "retry"
+        if f == self.group.join_and_sync:
+            return "rejoin" if self.group._rejoin_wait_dc is dc else "retry"
+        return "other"
 
     def render(self):
         out = []
@@ -426,7 +438,7 @@ class GroupWorld(object):
         return "snap started=%s stopping=%s jif=%s needed=%s hb=%s hbif=%s sf=%s jt=%d ht=%d member=%d gen=%s cons=%s" % (
             b(g._start_d is not None), b(g._stopping), b(g._rejoin_d), b(g._rejoin_needed), b(g._heartbeat_looper.running),
             b(g._heartbeat_request_d is not None), b(self.start_d is not None and self.start_d.called),
-            sum(1 for dc in act if dc.verif_kind != "hb"), sum(1 for dc in act if dc.verif_kind == "hb"),
+            sum(1 for dc in act if dc.verif_kind in ("rejoin", "retry")), sum(1 for dc in act if dc.verif_kind == "hb"),
             member_no(g.member_id), opt(g.generation_id), cons,
         )
 
